@@ -61,7 +61,7 @@ def parseCred (j : Json) : Cred :=
       | _ => none
     proof := if jHas j "proof" then parseProof (jObj j "proof") else .absent
     nProofs := jNat j "nProofs", shapeOK := jBool j "shapeOK", jwt := parseJwt j
-    raw := jStr j "raw", cd := jStr j "cd" }
+    raw := jStr j "raw", cd := jStr j "cd", caseVariant := jBool j "caseVariant" }
 
 def parsePres (j : Json) : Pres :=
   { format := parseFormat (jStr j "fmt"), holder := optStr j "holder", vcs := (jArr j "vcs").map parseCred
@@ -69,7 +69,7 @@ def parsePres (j : Json) : Pres :=
     signerVM := jStr j "signerVM"
     proof := if jHas j "proof" then parseProof (jObj j "proof") else .absent
     jwt := parseJwt j, jwtParses := if jHas j "jwtParses" then jBool j "jwtParses" else true
-    raw := jStr j "raw", cd := jStr j "cd" }
+    raw := jStr j "raw", cd := jStr j "cd", caseVariant := jBool j "caseVariant" }
 
 /-- measured signature facts of one document: (key, message, signature) triples for which the real check passed,
     and the measured canonical digest of its proof options -/
@@ -132,6 +132,7 @@ def step (st : St) (j : Json) : St × List String :=
                  | Json.arr #[Json.str a, Json.str b] => (a, b) | _ => ("", "")) } : Ver))))
       | _ => []
     ({ st with hist := hist, asOf := jInt j "asOf" }, ["world"])
+  | "reset" => ({}, ["reset"])
   | "trust" =>
     let e := (jStr j "type", jStr j "issuer")
     let tr := st.trust.filter (fun x => x != e)
